@@ -411,8 +411,9 @@ def http_dataset_check(run):
     import warnings
     try:
         from . import gen
-    except Exception as e:  # generator module not available
-        run.notes.append("http dataset check skipped: %r" % (e,))
+    except Exception as e:  # generator module not available: fail closed
+        run.broken.append(("correspondence(C19)", "dataset-level check could "
+                           "not run (generator): %r" % (e,)))
         return
     import dclab
     from dclab import http_utils
@@ -463,8 +464,9 @@ def http_dataset_check(run):
     try:
         srv = _serve(d)
         srv_noetag = _serve(d, with_etag=False)
-    except OSError as e:
-        run.notes.append("loopback server unavailable: %r" % (e,))
+    except OSError as e:  # fail closed: the second sentence was not checked
+        run.broken.append(("correspondence(C19)", "dataset-level check could "
+                           "not run (loopback server): %r" % (e,)))
         return
     orig = fmt_http.HTTPFile
     fmt_http.HTTPFile = TracingHTTPFile
@@ -475,9 +477,15 @@ def http_dataset_check(run):
             path = os.path.join(d, name)
             small = k < ntrace
             if small:
+                # files replayed through the model: small ones, and (every
+                # second) one with image/trace data so that h5py issues a
+                # few hundred operations over a few hundred chunks
+                rich = k % 2 == 1
                 spec = gen.random_dataset_spec(
                     run.rng, nevents=run.rng.choice([1, 3, 7]),
-                    kinds=("scalar",), nscalars=run.rng.choice([1, 2, 3]))
+                    kinds=(("scalar", "image", "trace") if rich
+                           else ("scalar",)),
+                    nscalars=run.rng.choice([1, 2, 3]))
                 geometry = (run.rng.choice([512, 1000, 1024]),
                             run.rng.choice([1, 2, 4]))
             else:
@@ -509,6 +517,10 @@ def http_dataset_check(run):
             run.count("http-dataset")
             run.count("http-dataset:cs=%d" % geometry[0])
             run.count("http-dataset:etag=%s" % etag)
+            run.count("http-dataset:requests", sum(
+                1 for t in traces for o, _ in t.trace if o[0] >= 2))
+            run.count("http-dataset:evicting sessions", sum(
+                1 for t in traces if t.peak > geometry[1]))
             if diff:
                 run.oracle_failure(case, "RTDC_HTTP differs from RTDC_HDF5: "
                                    + str(diff))
